@@ -1,35 +1,23 @@
-(* C10, "exactly one level applies" - the part of the property that fails on /repo
-   (known finding stale-annotated-alias) and the part that holds. *)
+(* C10, "exactly one level applies".  `applied` (Strategies.v) follows the re-entry of the registry after an
+   annotation-driven (use_annotations / generic) strategy; since /repo ed8922a that re-entry carries no alias. *)
 From Coq Require Import List String ZArith.
 From Verif Require Import PyK PyK_strat Strategies StrategiesProofs SingleApplication.
 Import ListNotations.
 
-(* full-strength statement: whatever is registered, at most one customization is applied *)
-Definition C10_single_application_full : Prop := single_application_full.
+(* whatever is registered and whatever the alias of the field: at most one customization is applied, provided nothing
+   is registered for the strategy's own annotated type `anyk` (that registration applies to the intermediate value
+   by design of use_annotations) *)
+Theorem C10_single_application : forall Sr An T O anyk d,
+  no_key Sr anyk ->
+  exists l b, applied 3 Sr (keys_of An T O) [] anyk d true = Some (l, b) /\ List.length l <= 1.
+Proof. exact single_application. Qed.
+Print Assumptions C10_single_application.
 
-(* it holds when the field type has no Annotated alias and nothing is registered for the
-   re-entry type (Any) itself *)
-Theorem C10_single_application_partial : forall Sr An T O anyk d,
-  k_truthy An = false -> no_key Sr anyk ->
-  exists l b, applied 3 Sr (keys_of An T O) (stale_of An) anyk d true = Some (l, b) /\ List.length l <= 1.
-Proof. exact single_application_partial. Qed.
-Print Assumptions C10_single_application_partial.
-
-(* refuted: field strategy with use_annotations + a registration for the Annotated alias => both apply *)
-Theorem C10_single_application_refuted : ~ C10_single_application_full.
-Proof. exact single_application_refuted. Qed.
-Print Assumptions C10_single_application_refuted.
-
-(* and a use_annotations strategy registered for the alias itself never finishes compiling *)
-Theorem C10_alias_recursion_refuted : forall fuel d,
-  applied fuel w_rec (keys_of wAnn wEx wOr) (stale_of wAnn) wAny d true = None.
-Proof. exact recursion_witness. Qed.
-Print Assumptions C10_alias_recursion_refuted.
-
-Example C10_single_partial_nonvacuous :
-  k_truthy KNone = false /\ no_key w_double (KObj 19) /\
-  applied 3 w_double (keys_of KNone wEx wOr) (stale_of KNone) (KObj 19) Ser true = Some ([2], 1).
+(* non-vacuity: the two shapes that failed before ed8922a now apply exactly one level *)
+Example C10_single_application_nonvacuous :
+  no_key w_rec wAny /\ no_key w_double wAny /\
+  applied 3 w_rec (keys_of wAnn wEx wOr) [] wAny Ser true = Some ([7], 1) /\
+  applied 3 w_double (keys_of wAnn wEx wOr) [] wAny Ser true = Some ([2], 1).
 Proof.
-  split; [reflexivity|]. split; [|reflexivity].
-  intros l t H. destruct l; cbn in H; inversion H; reflexivity.
+  split; [|split; [|split; reflexivity]]; intros l t H; destruct l; cbn in H; inversion H; reflexivity.
 Qed.
